@@ -320,6 +320,14 @@ func vfC09Scenarios(thorough bool) []*vfGWScenario {
 	mk("px", true, "d2", joined, []string{"score:a:1.9", "score:a:2", "score:a:2.5", "score:c:3", "prunepx:a:t", "prunepx:c:t", "prunepx:a:u", "leave:t", "join:t", "hb"})
 	mk("fanout-thr", false, "d2", prefix, []string{"score:a:-2.5", "score:a:-2", "score:a:-0.5", "score:c:-2.5", "score:d:-3", "score:d:0", "lpub:t:p1", "lpub:t:p2", "lpub:t:p3", "hb", "adv:3500", "join:t", "leave:t"})
 	mk("px-over", true, "d2", append(append([]string{}, joined...), "graft:a:t", "graft:c:t", "graft:d:t"), []string{"hb", "score:a:-0.5", "score:c:1", "score:d:-0.5", "leave:t", "join:t", "graft:a:t"})
+	// a full mesh (Dhi members) and a negatively scored non-member that GRAFTs: whichever rule refuses it, the PRUNE
+	// must not carry peer exchange
+	{
+		p5 := append(append([]vfPeerCfg{}, peers...), vfPeerCfg{Name: "e", Proto: "v11", IP: "10.0.0.5"}, vfPeerCfg{Name: "f", Proto: "v12", IP: "10.0.0.6", Outbound: true})
+		pre := []string{"conn:a", "conn:b", "conn:c", "conn:d", "conn:e", "conn:f", "sub:a:t", "sub:b:t", "sub:c:t", "sub:d:t", "sub:e:t", "sub:f:t", "join:t", "graft:a:t", "graft:c:t", "graft:d:t"}
+		out = append(out, &vfGWScenario{Name: "px-full-mesh", Cfg: vfGWCfg{Router: "gossip", Peers: p5, Topics: []string{"t"}, Params: "d2", Scoring: true, PX: true, Prefix: pre, SeenTTL: 3600},
+			Alphabet: []string{"score:e:-0.5", "score:f:-0.5", "score:e:1", "graft:e:t", "graft:f:t", "prune:a:t", "hb"}, Msgs: msgs, Depth: d})
+	}
 	// validation-overload gater: m1 parks in the only validation slot, m2 is throttled (the gater's circuit
 	// breaker closes), m1 is then rejected (a's goodput drops): from here the gater consults its coin for a's RPCs
 	// (b is a direct peer with equally bad statistics: the gater must never get to judge it)
